@@ -185,6 +185,9 @@ def ensure_ocaml(force=False):
         srcs = [ext] + [f for f in coq_sources() if ("/theories/" in f or "/generated/" in f) and "Propert" not in f and "Proofs" not in f]
         newest = max(os.path.getmtime(f) for f in srcs)
         if force or not os.path.exists(model) or os.path.getmtime(model) < newest:
+            # the model files must be consistent with the regenerated tables even when a proof file above them
+            # no longer compiles (make -k): extraction needs the definitions, not the proofs
+            coq_make([os.path.relpath(f, COQ)[:-2] + ".vo" for f in srcs if f != ext])
             rc, so, se = sh("coqc -Q ../coq/theories Adept -Q ../coq/generated AdeptGen ../coq/extract/Extract.v",
                             cwd=OCAML, timeout=600)
             if rc != 0:
